@@ -29,7 +29,7 @@ type sub struct {
 func main() {
 	run := ev.Start("C02", "exploration")
 	defer run.Finish()
-	run.Rule("unit = one drawn configuration of 1-6 logs (shared keys under different origins, distinct keys, hand-made and derived IDs); for every log, in the first-use state and in a populated state, every valid fixture is put through the exhaustive mutation menu (every single-bit flip, truncation at every byte, every line dropped/duplicated/swapped, signature name/key-hash/body edits, cross-log and cross-origin replays, unknown IDs) and submitted with the old size and proof that would make an authentic checkpoint acceptable. evaluations = submissions; nontrivial = distinct non-authentic (ID, bytes) pairs submitted")
+	run.Rule("unit = one drawn configuration of 1-6 logs (shared keys under different origins, distinct keys, distinct keys under one key NAME, hand-made and derived IDs; the witness map is built by the real LogConfig.AsLogMap); for every log, in the first-use state and in a populated state, every valid fixture is put through the exhaustive mutation menu (every single-bit flip, truncation at every byte, every line dropped/duplicated/swapped, signature name/key-hash/body edits, cross-log and cross-origin replays, unknown IDs) and submitted with the old size and proof that would make an authentic checkpoint acceptable. evaluations = submissions; nontrivial = distinct non-authentic (ID, bytes) pairs submitted")
 	run.Assume("Ed25519 unforgeable; authentic := text signed by the harness with that log's key and carrying that log's origin, decided by kit/refnote", "the converse (authentic => accepted) is not asserted here (C08/C09)")
 	units := run.Pick(10, 300)
 	run.Floor("refused_nonauthentic", 20000)
@@ -44,7 +44,7 @@ func main() {
 // some logs; exactly those bytes (as submitted, and as returned cosigned) are then submitted
 // under every other configured ID, before and after that ID holds something.
 func replayAfterAcceptance(run *ev.Run, unit int64, r *rand.Rand) {
-	u := gen.NewUniverse(r, gen.Opts{NLogs: 2 + r.IntN(4), MaxSize: 12, Branches: 1, ShareKeys: true})
+	u := gen.NewUniverse(r, gen.Opts{NLogs: 2 + r.IntN(4), MaxSize: 12, Branches: 1, ShareKeys: true, SameKeyNames: true})
 	keys, _ := wit.NewWitKeys(r, []bool{false, true}, true)
 	st, _ := wit.NewStore([]string{"mem", "sqlmem"}[r.IntN(2)], "")
 	defer st.Close()
@@ -108,7 +108,7 @@ func replayAfterAcceptance(run *ev.Run, unit int64, r *rand.Rand) {
 }
 
 func config(run *ev.Run, unit int64, r *rand.Rand) {
-	u := gen.NewUniverse(r, gen.Opts{NLogs: 1 + r.IntN(6), MaxSize: 12, Branches: 1, ShareKeys: true, HandIDs: true})
+	u := gen.NewUniverse(r, gen.Opts{NLogs: 1 + r.IntN(6), MaxSize: 12, Branches: 1, ShareKeys: true, HandIDs: true, SameKeyNames: true})
 	keys, _ := wit.NewWitKeys(r, []bool{false, true}, true)
 	const base, top = 3, 7
 	for _, l := range u.Logs {
@@ -128,8 +128,8 @@ func config(run *ev.Run, unit int64, r *rand.Rand) {
 				if populated {
 					for _, lg := range u.Logs {
 						if _, err := rn.W.Update(context.Background(), lg.ID, 0, lg.Honest(0, base), nil); err != nil {
-							run.Inconclusive("populate: " + err.Error())
-							return false
+							// an authentic checkpoint refused is not this property's direction (C08/C09); that log simply stays empty
+							run.Count("populate_refused")
 						}
 					}
 				}
